@@ -697,6 +697,43 @@ Qed.
 
 End ErrorEquation.
 
+(* ------------------------------------------------------------------ sweeper state: set_G_inv is a function of its argument only *)
+Section SetGinv.
+Variable eig : mat F -> (nat -> F) * mat F * mat F.
+Notation setG := (set_G_inv F f0 fadd fmul eig).
+Notation qst := (qd_state F).
+
+(* frame: the state after set_G_inv g does not depend on the state before *)
+Lemma set_G_inv_frame M Q (st st' : qst) g : setG M Q st g = setG M Q st' g.
+Proof. reflexivity. Qed.
+
+Lemma set_G_inv_stores M Q (st : qst) g : st_Ginv F (setG M Q st g) = g.
+Proof. unfold set_G_inv. destruct (eig _) as [[w Sm] Smi]. reflexivity. Qed.
+
+Lemma set_G_inv_last_wins M Q (st : qst) g1 g2 : setG M Q (setG M Q st g1) g2 = setG M Q st g2.
+Proof. reflexivity. Qed.
+
+Lemma set_G_inv_idempotent M Q (st : qst) g : setG M Q (setG M Q st g) g = setG M Q st g.
+Proof. reflexivity. Qed.
+
+(* whatever the sweeper was configured with before: after set_G_inv g (g an inverse of G, eig fulfilling its
+   contract on Q g) one update_nodes solves the local system of G *)
+Lemma one_shot_after_set_G_inv M n dt Q A G g solve (st : qst) :
+  (let '(w, Sm, Smi) := eig (mm M Q g) in
+     (forall i j, (i < M)%nat -> (j < M)%nat -> mm M Sm Smi i j = dl i j) /\
+     (forall i j, (i < M)%nat -> (j < M)%nat -> mm M (mm M Q g) Sm i j = Sm i j * w j) /\
+     (forall m rhs i, (m < M)%nat -> (i < n)%nat ->
+        solve (w m * dt) rhs i - (w m * dt) * appA n A (solve (w m * dt) rhs) i = rhs i)) ->
+  (forall i j, (i < M)%nat -> (j < M)%nat -> mm M G g i j = dl i j) ->
+  forall r m i, (m < M)%nat -> (i < n)%nat ->
+  Kop M n dt Q A G (update_nodes_st F f0 fadd fmul M dt (setG M Q st g) solve r) m i = r m i.
+Proof.
+  unfold update_nodes_st, set_G_inv. destruct (eig (mm M Q g)) as [[w Sm] Smi].
+  intros [HSS [Heig Hsolve]] HGG r m i Hmn Hi. cbn [st_w st_S st_Si st_Ginv].
+  apply (one_shot M n dt Q A G g Sm Smi w solve); auto.
+Qed.
+End SetGinv.
+
 End Theory.
 
 (* ------------------------------------------------------------------ the Gaussian rationals are a field *)
